@@ -19,6 +19,7 @@ import (
 	"github.com/aperturerobotics/bifrost/pubsub/util/pubmessage"
 	stream_packet "github.com/aperturerobotics/bifrost/stream/packet"
 	pbl "github.com/aperturerobotics/protobuf-go-lite"
+	"github.com/mr-tron/base58/base58"
 	"github.com/zeebo/blake3"
 
 	"verif/harness/lib"
@@ -186,6 +187,7 @@ type c27case struct {
 	op      string
 	model   string
 	vbit    int
+	after   *c27case // must be presented to the router after this case (replays, re-used signatures)
 }
 
 func tplStr(t pubsub.PeerLinkTuple) string {
@@ -196,8 +198,8 @@ func tr(b bool) *bool { return &b }
 
 // runC27 feeds forged and honest publish packets to a real router through real streams.
 func (e *engine) runC27() {
-	e.rep.Rule = "publish packets sent to a real FloodSub over in-memory streams from 3 remote peers: honest (3 channels, 3 hash types, 2 publishers, with/without timestamp), replayed via the same and another peer, tampered data, re-targeted channel (stale signature / signature for another channel's context), foreign signer with claimed sender, wrong context, empty channel, bad timestamp, unsubscribed / unknown channel, malformed sender / signature / hash type, duplicate-field and unknown-field encodings, random bit flips re-signed; observed = handler callbacks and packets forwarded to the other peers; distinct = distinct op line"
-	e.rep.Require("ok", "ok.released-key", "dup", "nosub", "rejected.decode", "rejected.invalidInner", "rejected.sign.badSignature",
+	e.rep.Rule = "ONE history per router of publish packets (Packet.Publish lists of 1-4 entries mixing rejected and valid entries in random order, replays and re-used signatures always after their source) sent to a real FloodSub over in-memory streams from 3 remote peers: re-use of the authentic signature of an earlier message (dropped as unsubscribed / unknown channel, delivered, rejected before verification) with other data / another channel / another sender / another hash type / only the channel rewritten; honest (3 channels, 3 hash types, 2 publishers, with/without timestamp), replayed via the same and another peer, tampered data, re-targeted channel (stale signature / signature for another channel's context), foreign signer with claimed sender, wrong context, empty channel, bad timestamp, unsubscribed / unknown channel, malformed sender / signature / hash type, duplicate-field and unknown-field encodings, random bit flips re-signed; observed = handler callbacks and packets forwarded to the other peers; distinct = distinct op line"
+	e.rep.Require("ok", "ok.released-key", "dup", "nosub", "batch.mixed", "hist.reuse-after-unsubscribed", "hist.reuse-after-unknown-channel", "hist.reuse-after-delivered", "hist.reuse-after-bad-timestamp", "rejected.decode", "rejected.invalidInner", "rejected.sign.badSignature",
 		"rejected.sign.emptyPeerId", "rejected.sign.sigInvalid", "rejected.sign.badPeerId", "rejected.sign.noPubKey", "inner.ok", "inner.err")
 	batches := 3 * e.a.Scale
 	for b := 0; b < batches; b++ {
@@ -336,8 +338,10 @@ func (e *engine) c27Batch(b int) {
 		return append([]byte(fmt.Sprintf("b%d-c%d-", b, seq)), rng.Bytes(1+rng.Intn(12))...)
 	}
 	var cases []*c27case
-	add := func(gen string, msg *peer.SignedMsg, via int, expect *bool, expCh string, dataKey []byte) {
-		cases = append(cases, &c27case{gen: gen, msg: msg, via: via, expect: expect, expCh: expCh, dataKey: dataKey})
+	add := func(gen string, msg *peer.SignedMsg, via int, expect *bool, expCh string, dataKey []byte) *c27case {
+		c := &c27case{gen: gen, msg: msg, via: via, expect: expect, expCh: expCh, dataKey: dataKey}
+		cases = append(cases, c)
+		return c
 	}
 	honest := func(k *key, ch string, ht int, data []byte, ts []byte) *peer.SignedMsg {
 		return rawSigned(k, pubCtxPrefix+ch, ht, innerBytes(data, ch, ts))
@@ -351,7 +355,7 @@ func (e *engine) c27Batch(b int) {
 		// honest, built by hand
 		d := tag()
 		h1 := honest(k, ch, ht, d, nil)
-		add("honest", h1, via, tr(true), ch, d)
+		ch1 := add("honest", h1, via, tr(true), ch, d)
 		// honest, built by the library (with a timestamp)
 		d = tag()
 		lm, _, err := pubmessage.NewPubMessage(ch, k.sk, hash.HashType(ht), d)
@@ -365,11 +369,11 @@ func (e *engine) c27Batch(b int) {
 		d = tag()
 		add("honest-sent-by-origin", honest(peers[via].key, "alpha", ht, d, nil), via, tr(true), "alpha", d)
 		// replays
-		add("replay-same-peer", h1.CloneVT(), via, tr(false), "", d0(h1))
-		add("replay-other-peer", h1.CloneVT(), (via+2)%3, tr(false), "", d0(h1))
+		add("replay-same-peer", h1.CloneVT(), via, tr(false), "", d0(h1)).after = ch1
+		add("replay-other-peer", h1.CloneVT(), (via+2)%3, tr(false), "", d0(h1)).after = ch1
 		rp := h1.CloneVT()
 		rp.Signature.PubKey = []byte{} // same id: the embedded key is not part of the id
-		add("replay-reencoded", rp, (via+1)%3, tr(false), "", d0(h1))
+		add("replay-reencoded", rp, (via+1)%3, tr(false), "", d0(h1)).after = ch1
 		// channels the router does not subscribe to
 		d = tag()
 		add("unsubscribed-channel", honest(k, "gamma", ht, d, nil), via, tr(false), "", d)
@@ -455,6 +459,59 @@ func (e *engine) c27Batch(b int) {
 		t = honest(k, ch, ht, tag(), nil)
 		t.Data = nil
 		add("empty-body", t, via, tr(false), "", nil)
+		// an AUTHENTIC signature seen earlier (whatever became of its message: dropped as
+		// unsubscribed / unknown channel, delivered, rejected before verification, replayed) is
+		// re-used with other data, another channel, another sender text, another hash type
+		type src struct {
+			c  *c27case
+			ch string
+		}
+		var srcs []src
+		mkSrc := func(gen, sch string, exp *bool, ts []byte) src {
+			sd := tag()
+			return src{c: add(gen, honest(k, sch, ht, sd, ts), via, exp, sch, sd), ch: sch}
+		}
+		srcs = append(srcs, mkSrc("reuse-source-unsubscribed", "gamma", tr(false), nil))
+		srcs = append(srcs, mkSrc("reuse-source-unsubscribed", "gamma", tr(false), nil))
+		srcs = append(srcs, mkSrc("reuse-source-unknown-channel", "zeta", tr(false), nil))
+		srcs = append(srcs, mkSrc("reuse-source-delivered", "alpha", tr(true), nil))
+		srcs = append(srcs, mkSrc("reuse-source-delivered", "beta", tr(true), nil))
+		srcs = append(srcs, mkSrc("reuse-source-bad-timestamp", "alpha", tr(false), append(pbVarint(1, 253402300800), pbVarint(2, 5)...)))
+		for si, sc := range srcs {
+			base := sc.c.msg
+			otherCh := []string{"alpha", "beta"}[(si+r)%2]
+			if otherCh == sc.ch {
+				otherCh = []string{"beta", "alpha"}[(si+r)%2]
+			}
+			reuse := func(gen string, mut func(t *peer.SignedMsg, nd []byte)) {
+				nd := tag()
+				t := base.CloneVT()
+				mut(t, nd)
+				add(gen, t, (via+rng.Intn(3))%3, tr(false), "", nd).after = sc.c
+			}
+			reuse("reuse-signature-other-channel", func(t *peer.SignedMsg, nd []byte) { t.Data = innerBytes(nd, otherCh, nil) })
+			switch (si + r + b) % 4 {
+			case 0:
+				reuse("reuse-signature-other-data", func(t *peer.SignedMsg, nd []byte) { t.Data = innerBytes(nd, sc.ch, nil) })
+			case 1:
+				reuse("reuse-signature-other-sender", func(t *peer.SignedMsg, nd []byte) {
+					t.FromPeerId = other.id.String()
+					t.Data = innerBytes(nd, otherCh, nil)
+				})
+			case 2:
+				reuse("reuse-signature-other-hashtype", func(t *peer.SignedMsg, nd []byte) {
+					t.Signature.HashType = hash.HashType(1 + ht%3)
+					t.Data = innerBytes(nd, otherCh, nil)
+				})
+			case 3:
+				// the pure re-target: same data bytes, only the channel rewritten (source never delivered)
+				if sc.ch == "gamma" || sc.ch == "zeta" {
+					t := base.CloneVT()
+					t.Data = innerBytes(sc.c.dataKey, otherCh, nil)
+					add("reuse-signature-retarget", t, (via+1)%3, tr(false), "", sc.c.dataKey).after = sc.c
+				}
+			}
+		}
 		// random bit flip in the inner bytes, re-signed for alpha: accepted iff it still decodes to alpha
 		d = tag()
 		ib := innerBytes(d, "alpha", nil)
@@ -464,32 +521,84 @@ func (e *engine) c27Batch(b int) {
 		add("garbage-inner-signed", rawSigned(k, pubCtxPrefix+"alpha", ht, rng.Bytes(1+rng.Intn(30))), via, nil, "", nil)
 	}
 
-	// run the cases one at a time, each followed by a marker on the same stream
+	// The cases form ONE history for this router: a random order that keeps every replay / re-used
+	// signature after its source, cut into packets of 1-4 publish entries (rejected and valid
+	// entries mixed in every order inside one Packet), each packet closed by a marker entry.
+	{
+		placed := map[*c27case]bool{}
+		var order []*c27case
+		rest := append([]*c27case(nil), cases...)
+		for len(rest) > 0 {
+			var ready []int
+			for i, c := range rest {
+				if c.after == nil || placed[c.after] {
+					ready = append(ready, i)
+				}
+			}
+			// mostly keep generation order locally (window of 12) so related classes stay near each other
+			w := len(ready)
+			if w > 12 {
+				w = 12
+			}
+			i := ready[rng.Intn(w)]
+			placed[rest[i]] = true
+			order = append(order, rest[i])
+			rest = append(rest[:i:i], rest[i+1:]...)
+		}
+		cases = order
+	}
 	var seen []string
 	markers := map[string]bool{}
 	sentVia := make([]int, len(peers))
-	for ci, c := range cases {
-		sig := c.msg.GetSignature()
-		seenArg := "_"
-		if len(seen) != 0 {
-			seenArg = strings.Join(seen, ",")
+	total := 0
+	aborted := false
+	for ci := 0; ci < len(cases) && !aborted; {
+		gsz := 1
+		if rng.Intn(5) >= 2 {
+			gsz = 2 + rng.Intn(3)
 		}
-		c.op = fmt.Sprintf("pubsub.handle %s %s %s seen=%s prev=%s from=%s spk=%s ht=%d sig=%s data=%s", chans, pc, pl, seenArg,
-			lib.Hex([]byte(peers[c.via].key.id)), lib.Hex([]byte(c.msg.GetFromPeerId())), lib.Hex(sig.GetPubKey()), int32(sig.GetHashType()), lib.Hex(sig.GetSigData()), lib.Hex(c.msg.GetData()))
-		c.model, c.vbit = e.oracleQuery(c.op)
-		if strings.HasPrefix(c.model, "ok ") {
-			seen = append(seen, lib.KV(c.model, "id"))
+		if ci+gsz > len(cases) {
+			gsz = len(cases) - ci
+		}
+		group := cases[ci : ci+gsz]
+		via := group[0].via
+		var entries []*peer.SignedMsg
+		var gens []string
+		for _, c := range group {
+			c.via = via
+			sig := c.msg.GetSignature()
+			seenArg := "_"
+			if len(seen) != 0 {
+				seenArg = strings.Join(seen, ",")
+			}
+			c.op = fmt.Sprintf("pubsub.handle %s %s %s seen=%s prev=%s from=%s spk=%s ht=%d sig=%s data=%s", chans, pc, pl, seenArg,
+				lib.Hex([]byte(peers[c.via].key.id)), lib.Hex([]byte(c.msg.GetFromPeerId())), lib.Hex(sig.GetPubKey()), int32(sig.GetHashType()), lib.Hex(sig.GetSigData()), lib.Hex(c.msg.GetData()))
+			c.model, c.vbit = e.oracleQuery(c.op)
+			if strings.HasPrefix(c.model, "ok ") {
+				seen = append(seen, lib.KV(c.model, "id"))
+			}
+			entries = append(entries, c.msg)
+			gens = append(gens, c.gen)
+			if c.after != nil && strings.HasPrefix(c.gen, "reuse-signature") {
+				// which fate of the source message precedes the re-use of its signature in this history
+				e.rep.Case(fmt.Sprintf("pubsub.handle #history b=%d %s after %s", b, c.gen, c.after.gen), "x", "x",
+					"hist.reuse-after-"+strings.TrimPrefix(c.after.gen, "reuse-source-"), false)
+			}
+		}
+		if gsz > 1 {
+			e.rep.Case(fmt.Sprintf("pubsub.handle #batch b=%d at=%d gens=%s", b, ci, strings.Join(gens, ",")), "x", "x", "batch.mixed", false)
 		}
 		mdata := []byte(fmt.Sprintf("marker-%d-%d", b, ci))
 		mk := rawSigned(markerKey, pubCtxPrefix+"sync", 1, innerBytes(mdata, "sync", nil))
 		mb, _ := mk.MarshalVT()
 		markers[string(mb)] = true
+		total++
 		for i, p := range peers {
-			if p.key.id == peers[c.via].key.id { // execPublish skips every link of the previous hop
+			if p.key.id == peers[via].key.id { // execPublish skips every link of the previous hop
 				sentVia[i]++
 			}
 		}
-		if err := peers[c.via].sess.SendMsg(&floodsub.Packet{Publish: []*peer.SignedMsg{c.msg, mk}}); err != nil {
+		if err := peers[via].sess.SendMsg(&floodsub.Packet{Publish: append(entries, mk)}); err != nil {
 			panic(err)
 		}
 		select {
@@ -498,15 +607,21 @@ func (e *engine) c27Batch(b int) {
 				panic("marker out of order")
 			}
 		case <-time.After(5 * time.Second):
-			e.rep.Compare(c.op+" #marker", "marker delivered", "marker not delivered", "ok", "pubsub.handle:marker-lost",
-				"an authentic message on a subscribed channel (the sync marker sent after case "+c.gen+") was not handed to its subscriber within 5 s")
-			return
+			e.rep.Compare(group[gsz-1].op+" #marker", "marker delivered", "marker not delivered", "ok", "pubsub.handle:marker-lost",
+				"an authentic message on a subscribed channel (the sync marker closing the packet ["+strings.Join(gens, ",")+"]) was not handed to its subscriber within 5 s")
+			// judge what was observed up to and including this packet
+			aborted = true
+			cases = cases[:ci+gsz]
 		}
+		ci += gsz
 	}
 	// drain: every peer must have received every marker not sent through itself
-	total := len(cases)
 	for i, p := range peers {
 		want := total - sentVia[i]
+		if aborted {
+			time.Sleep(20 * time.Millisecond)
+			break
+		}
 		if !waitFor(10*time.Second, func() bool {
 			_, _, fw := p.snapshot()
 			n := 0
@@ -644,6 +759,41 @@ func (e *engine) c27Batch(b int) {
 			}
 		}
 		e.rep.Compare(c.op, model, impl, br, "pubsub.handle:"+c.gen, mon)
+	}
+	// stated on the observations alone (no case attribution, no model): whatever the router handed to
+	// a subscriber or wrote to another peer is authentic for its claimed sender and for a channel the
+	// router subscribes to, and a delivery carries the sender / channel / data of such a message
+	type authKey struct{ from, ch, data string }
+	authSent := map[authKey]bool{}
+	for _, c := range cases {
+		if ch, data, ok := stdAuthentic(c.msg); ok {
+			if raw, err := base58.Decode(c.msg.GetFromPeerId()); err == nil {
+				authSent[authKey{string(raw), ch, string(data)}] = true
+			}
+		}
+	}
+	for _, d := range allDels {
+		if !authSent[authKey{string(d.from), d.subCh, string(d.data)}] {
+			e.rep.Compare("pubsub.handle:delivered-unauthentic data="+lib.Hex(d.data), "none", "delivery", "ok", "pubsub.handle:delivered-unauthentic",
+				fmt.Sprintf("a subscriber of %s was handed (sender %s, data %q) but no packet sent to the router carries that data with a signature that verifies (crypto/ed25519) for that sender and that channel", d.subCh, d.from.String(), d.data))
+		}
+	}
+	for _, p := range peers {
+		_, _, fw := p.snapshot()
+		for _, f := range fw {
+			if markers[f] {
+				continue
+			}
+			fm := &peer.SignedMsg{}
+			ch, _, ok := "", []byte(nil), false
+			if err := fm.UnmarshalVT([]byte(f)); err == nil {
+				ch, _, ok = stdAuthentic(fm)
+			}
+			if !ok || (ch != "alpha" && ch != "beta") {
+				e.rep.Compare("pubsub.handle:forwarded-unauthentic msg="+lib.Hex([]byte(f)), "none", "forward", "ok", "pubsub.handle:forwarded-unauthentic",
+					fmt.Sprintf("the router wrote a publish entry (claimed sender %q, channel %q) to another peer that does not verify (crypto/ed25519) for its claimed sender and channel, or names a channel the router does not subscribe to", fm.GetFromPeerId(), ch))
+			}
+		}
 	}
 	// anything left over was delivered / forwarded without a case accounting for it
 	for i, d := range allDels {
